@@ -18,7 +18,7 @@ EXPLANATION = (
     "map; (R3) the signs written through map.D equal the Dsigns literal; _fill_signs is (+ on x, - on z, Dsigns per "
     "map, placed by a running offset that advances by each map's own pdim); the Hs block is negated before it is written; the regulariser shifts with the sign; (R4) the "
     "regularisation shift and its restore are guarded by the same flag, the restore follows the refactorisation and "
-    "iterative refinement reads only the restored copy; (R5) one scaling state per factorisation: nothing between kktsystem.update and the last kktsystem.solve of an iteration writes a field that get_Hs / the sparse update / mul_Hs read; (R6) all four passes select sparse cones with the same test; (R7) KKT mirror discipline: the value array and the LDL engine's permuted copy are written only through the paired helpers (re-run of C08.R5).")
+    "iterative refinement reads only the restored copy; (R5) one scaling state per factorisation: nothing between kktsystem.update and the last kktsystem.solve of an iteration writes a field that get_Hs / the sparse update / mul_Hs read; (R6) all four passes select sparse cones with the same test; (R8) get_Hs of every cone type fills its whole block; (R7) KKT mirror discipline: the value array and the LDL engine's permuted copy are written only through the paired helpers (re-run of C08.R5).")
 ASSUMPTIONS = ['rustc MIR construction and trait resolution are correct',
                'the block utilities (colcount_block/fill_block ...) are mutually consistent (C16 territory)']
 
@@ -536,6 +536,50 @@ def one_scaling_state(rep, F, E, tag):
     R.guard(body)
 
 
+def hs_block_complete(rep, F, tag, rid='C11.R8'):
+    """Every cone's get_Hs must fill its whole block of the KKT matrix: the entries it leaves alone keep the values of the
+    previous iteration (or the structural initial value), so the assembled matrix is not the intended one."""
+    R = rep.rule(rid, 'get_Hs of every cone type writes its whole block (whole-slice write, complementary ranges, iteration over the block, or an indexed fill loop)')
+
+    def body():
+        WHOLE = ('fill', 'set', 'copy_from', 'copy_from_slice', 'clone_from_slice')
+        n = 0
+        for f in F.find(name='get_Hs', trait='Cone'):
+            K = last_seg(strip_generics(f.impl_adt or f.impl_self or '?'))
+            if K in ('CompositeCone', 'SupportedCone'):
+                continue
+            n += 1
+            for val, ret, ev, tr in Walker(f, cut_loops=True).leaves():
+                if ret[0] in ('diverge', 'cut'):
+                    continue
+                whole = False
+                lo, hi = [], []
+                for e in ev:
+                    if e[0] == 'call':
+                        a = split_args(e[2]) if '(' in e[2] else []
+                        if e[1] in WHOLE and a and a[0] == 'arg2':
+                            whole = True
+                        if e[1] == 'pack_triu' and 'arg2' in a:
+                            whole = True
+                        if e[1] == 'zip' and a and a[0] == 'arg2':
+                            whole = True
+                        if e[1] in WHOLE + ('scalarop_from', 'scalarop') and a and a[0].startswith(('index_mut(arg2, Range', 'index(arg2, Range')):
+                            m1 = re.search(r'RangeTo\((.*)\)\)$', a[0])
+                            m2 = re.search(r'RangeFrom\((.*)\)\)$', a[0])
+                            if m1:
+                                lo.append(m1.group(1))
+                            if m2:
+                                hi.append(m2.group(1))
+                loopfill = any(l2[1][0] == 'cut' and any(e[0] == 'store' and re.fullmatch(r'arg2\[var:\w+\]', str(e[1])) for e in l2[2]) for l2 in Walker(f, cut_loops=True).leaves())
+                ok = whole or (lo and hi and set(lo) & set(hi)) or loopfill
+                R.check(bool(ok), 'hs-block-complete|%s%s' % (K, tag),
+                        '%s::get_Hs does not fill its whole block on the path %s (ranges written: ..%s / %s..): the rest of the block keeps stale values in the '
+                        'KKT matrix' % (K, {k[:40]: v for k, v in val.items()}, lo, hi), f.loc())
+        R.check(n >= 6, 'hs-block-cones' + tag, 'only %d cone types analysed' % n)
+
+    R.guard(body)
+
+
 def run(ctx, rep, tier):
     for cfg in CONFIGS:
         F = ctx.facts(cfg)
@@ -547,6 +591,7 @@ def run(ctx, rep, tier):
         restore_pairing(rep, F, E, tag)
         same_filter(rep, F, tag)
         one_scaling_state(rep, F, E, tag)
+        hs_block_complete(rep, F, tag)
         from . import c05
         # R5 (shared): identity scaling rewrites everything the KKT update reads
     from . import c08
